@@ -181,9 +181,9 @@ def run_harness(scenarios, tag, shards=None, need_shim=True, timeout=3000):
     return outs
 
 
-def validate_traces(paths, module="TraceSeq", parallel=6, timeout=3000):
+def validate_traces(paths, module="TraceSeq", parallel=6, timeout=3000, cfg=None):
     """Trace validation by TLC. Returns (fails, stats): fails = list of dict(trace, line, sid, tags)."""
-    cfg = "CONSTANTS\n  NK = 4\n  SplitBigRecords = FALSE\nSPECIFICATION Spec\nPOSTCONDITION AllConsumed\nCHECK_DEADLOCK FALSE\n"
+    cfg = cfg or "CONSTANTS\n  NK = 4\n  SplitBigRecords = FALSE\nSPECIFICATION Spec\nPOSTCONDITION AllConsumed\nCHECK_DEADLOCK FALSE\n"
 
     def one(p):
         if os.path.getsize(p) == 0:
